@@ -133,7 +133,7 @@ def make_tarball(members, ext, top="repo-snapshot"):
 def cdata(b):
     """file content as it crosses into Coq: long contents (the multi-block test blob) are replaced by
     a 12-byte digest — the model never looks inside file data of the trees"""
-    if len(b) <= 16:
+    if len(b) <= 256:
         return b
     return b"\x00BIG" + zlib.crc32(b).to_bytes(4, "big") + len(b).to_bytes(4, "big")
 
@@ -923,7 +923,7 @@ def main(chk: Check):
     global USE_FORK
     # thorough: the first scenarios run every sync in a forked child that really dies at the crash
     # (process creation costs ~0.5 s in this sandbox, so not all of them)
-    fork_first = 5 if chk.thorough else (ncases_fork() if os.environ.get("VERIF_C47_FORK") else 0)
+    fork_first = 3 if chk.thorough else (ncases_fork() if os.environ.get("VERIF_C47_FORK") else 0)
     chk.cov["forked_scenarios"] = fork_first
 
     ncases = int(os.environ.get("VERIF_C47_CASES", 0)) or chk.n(8, 24)
